@@ -11,7 +11,7 @@ BUDGET = {'quick': (12000, 80.0), 'thorough': (300000, 1500.0)}
 RULE = ('seeded swarm generation of 2-4 real J1939-21 stacks, 1-8 messages on distinct (SA,DA) pairs submitted within 300 ms; '
         'a run is non-trivial when at least one multi-packet transfer put frames on the bus; distinct = distinct scenario JSON')
 FAULT_COUNTERS = {'application send_pgn from inside the stack\'s own transmission': 'reentrant_submissions', "zero-latency bus: reply handled re-entrantly inside the sender's send call (runs)": 'zero_latency_runs'}
-REQUIRED_PROBES = ['cmdt_msgs', 'bam_msgs', 'zero_latency_runs', 'len_mod7_zero']
+REQUIRED_PROBES = ['cmdt_msgs', 'bam_msgs', 'zero_latency_runs', 'len_mod7_zero', 'refused_busy_pair', 'accepted_same_pair', 'submitted_from_ack_callback']
 DLL = 'j1939-21'
 
 
@@ -59,12 +59,36 @@ def generate(rng, tier, i):
             used.add((sa, da))
         msgs.append({'at_us': rng.randint(0, window_us), 'stack': names[si], 'ca': ci, 'prio': rng.randrange(8),
                      'dp': rng.choice([0, 0, 1]), 'pf': pf, 'ps': ps, 'len': n, 'fill': rng.randrange(1 << 16)})
-    scn['msgs'] = sorted(msgs, key=lambda m: m['at_us'])
+    # a second parameter group for an (SA,DA) pair that already has a multi-packet message: refused while the first is in
+    # flight, accepted afterwards - whatever send_pgn accepts must arrive intact
+    extra = []
+    for m in msgs:
+        if m['len'] > 8 and rng.random() < 0.15:
+            e = dict(m, at_us=m['at_us'] + rng.choice([0, 100, 20_000, 150_000, 600_000]), fill=rng.randrange(1 << 16), len=gen.len21(rng), same_pair=True)
+            if m['pf'] >= 240:
+                e['ps'] = (m['ps'] + rng.choice([1, 7, 128])) & 0xFF
+            elif m['ps'] == 255:
+                e['pf'] = rng.choice([0x01, 0xD3, 0xEF])
+            else:
+                e['pf'] = rng.choice([0x01, 0xD3, 0xC3])
+            extra.append(e)
+            m['same_pair'] = True        # (either of the two may find the pair busy)
+    # the application submits the next message from inside the end-of-message-acknowledgement callback of an earlier one
+    for idx, m in enumerate(msgs):
+        if m['len'] > 8 and m['pf'] < 240 and m['ps'] != 255 and rng.random() < 0.12:
+            extra.append(dict(m, fill=rng.randrange(1 << 16), len=max(9, gen.len21(rng)), pf=rng.choice([m['pf'], 0xD4]), on_ack_of=idx, same_pair=True))
+            m['same_pair'] = True
+    scn['msgs_plain'] = [dict(m) for m in msgs]
+    msgs += extra
+    scn['msgs'] = sorted(msgs, key=lambda m: (m.get('on_ack_of') is not None, m['at_us']))
     # some messages are submitted from inside the originating stack's own k-th transmission (an application thread running
     # at that instant, or a backend that calls back into the application)
     if len(scn['msgs']) > 1 and rng.random() < 0.3:
         for m in rng.sample(scn['msgs'][1:], min(len(scn['msgs']) - 1, rng.randint(1, 2))):
-            m['on_tx'] = rng.choice([0, 1, 2, 3, 4, 6, 9, rng.randrange(0, 60)])
+            # (not for messages that share their (SA,DA) pair with another one: two calls for one pair at the very same
+            #  instant are outside the property, which speaks of concurrent submissions on different pairs)
+            if m.get('on_ack_of') is None and not m.get('same_pair'):
+                m['on_tx'] = rng.choice([0, 1, 2, 3, 4, 6, 9, rng.randrange(0, 60)])
     return scn
 
 
@@ -74,7 +98,8 @@ def execute(scn, keep_log=False, hook=None):
     exp, extra, meta = common.Counter(), common.Counter(), {}
     viol = []
     stats = {'cmdt_msgs': 0, 'bam_msgs': 0, 'single_msgs': 0, 'zero_latency_runs': int(scn['latency']['kind'] == 'zero'),
-             'len_mod7_zero': 0, 'window_255': 0, 'reentrant_submissions': 0}
+             'len_mod7_zero': 0, 'window_255': 0, 'reentrant_submissions': 0, 'refused_busy_pair': 0, 'accepted_same_pair': 0,
+             'submitted_from_ack_callback': 0}
     states = set()
     t0 = sim.now
     sim.run_for(0.02)       # let the job threads start and park
@@ -88,9 +113,14 @@ def execute(scn, keep_log=False, hook=None):
         if m['len'] > 8 and m['len'] % 7 == 0:
             stats['len_mod7_zero'] += 1
         if ok is not True:
+            if m.get('same_pair') and ok is False:
+                stats['refused_busy_pair'] += 1      # allowed: an earlier message on this pair may still be in progress
+                return
             viol.append({'clause': 'send-refused', 'rank': 2, 'msg': 'send_pgn returned %r for a message on a free (SA,DA) pair' % (ok,),
                          'feat': {'mode': mode}})
             return
+        if m.get('same_pair'):
+            stats['accepted_same_pair'] += 1
         e, x = common.expected_deliveries(scn, m, data, meta)
         exp.update(e)
         extra.update(x)
@@ -114,19 +144,33 @@ def execute(scn, keep_log=False, hook=None):
                     submit(m)
                 finally:
                     nest[0] -= 1
-    w.bus.observers.append(on_tx)
+    w.bus.post_hooks.append(on_tx)
+    pending_on_ack = [m for m in scn['msgs'] if m.get('on_ack_of') is not None]
+
+    def on_delivery(stack, lid, pgn, sa, d):
+        # the originator's CA listener sees the end-of-message acknowledgement (8 bytes, control byte 19) of message i
+        if not d or len(d) != 8 or d[0] != 19 or not lid.startswith('ca'):
+            return
+        for m in list(pending_on_ack):
+            src = scn['msgs_plain'][m['on_ack_of']]
+            if stack == src['stack'] and lid == 'ca%d' % src['ca'] and sa == src['ps'] and pgn == common.rc.sae_pgn(src['dp'], src['pf'], src['ps']):
+                pending_on_ack.remove(m)
+                stats['submitted_from_ack_callback'] += 1
+                submit(m)
+    w.delivery_hooks.append(on_delivery)
     for m in scn['msgs']:
-        if m.get('on_tx') is None:
+        if m.get('on_tx') is None and m.get('on_ack_of') is None:
             sim.at(base + m['at_us'] * 1000, (lambda m=m: submit(m)), 'op')
     if hook:
         hook(w)
     longest = max([m['len'] for m in scn['msgs']] + [0])
-    cap = 2.0 + (longest / 7.0) * 0.06 + 0.4
+    last_at_ns = max([m['at_us'] for m in scn['msgs']] + [0]) * 1000
+    cap = 2.0 + (longest / 7.0) * 0.06 * 2 + 0.4 + last_at_ns / 1e9
     # sample abstract states while settling
     for _ in range(int(cap / 0.05) + 1):
         sim.run_for(0.05)
         states.add(common.abstract_state(w))
-        if sim.now - base > 400_000_000 and not common.busy(w):
+        if sim.now - base > max(400_000_000, last_at_ns + 50_000_000) and not common.busy(w):
             break
     sim.run_for(0.05)
     tv = common.thread_violations(w)
@@ -151,7 +195,8 @@ def features(scn, v):
 
 
 def shrink(scn):
-    yield from gen.drop_each(scn, 'msgs', 1)
+    for c in gen.drop_each(scn, 'msgs', 1):
+        yield c      # (msgs_plain keeps the originals, so on_ack_of indices stay valid; an orphaned on_ack message is simply never submitted)
     used = {m['stack'] for m in scn['msgs']}
     dests = {common.msg_dest(m) for m in scn['msgs']}
     for i, s in enumerate(scn['stacks']):
